@@ -1,6 +1,6 @@
-SPECIFICATION FairSpec
+SPECIFICATION SpecPOR
 CONSTANTS
-  NConc = 1
+  NConc = 0
   NPost = 0
   BareSendPublishBatch = FALSE
   BareSendDiscover = FALSE
@@ -13,7 +13,7 @@ CONSTANTS
   MaxDirect = 0
   ConnCap = 1
   FirstMsgBuffered = TRUE
-  MaxNewPeer = 0
+  MaxNewPeer = 1
   BootArmEval = TRUE
   BootArmQ = TRUE
   BootArmDone = TRUE
@@ -23,8 +23,8 @@ CONSTANTS
   BatchCap = 1
   DiscCap = 1
   SendCap = 1
-  MaxTicks = 1
+  MaxTicks = 0
   MaxRemote = 0
-INVARIANTS TypeOK P_C14_Returns P_C14_Exit P_C14_NoPanic
-PROPERTIES LiveReturns LiveExit
+INVARIANTS TypeOK P_C14_Returns_POR P_C14_Exit_POR P_C14_NoPanic
+VIEW NoRes
 CHECK_DEADLOCK FALSE
